@@ -297,10 +297,20 @@ func NewScriptedPublisher(r *Run, name string) *ScriptedPublisher {
 
 var ErrScriptedPublish = errors.New("scripted publish error")
 
+// SnapMsg is the harness's own content copy of a message (UUID, payload, every metadata key): Message.Copy and
+// Metadata.Set are code under test and must not decide what the oracles compare against.
+func SnapMsg(m *message.Message) *message.Message {
+	c := &message.Message{UUID: m.UUID, Payload: append(message.Payload(nil), m.Payload...), Metadata: message.Metadata{}}
+	for k, v := range m.Metadata {
+		c.Metadata[k] = v
+	}
+	return c
+}
+
 func (p *ScriptedPublisher) Publish(topic string, msgs ...*message.Message) error {
 	c := &PubCall{N: len(p.Calls) + 1, Topic: topic, Msgs: append([]*message.Message(nil), msgs...), Step: p.R.Sim.Step()}
 	for _, m := range msgs {
-		c.Snap = append(c.Snap, m.Copy())
+		c.Snap = append(c.Snap, SnapMsg(m))
 	}
 	c.Fault = p.FailAt[c.N]
 	if p.Decide != nil {
